@@ -61,13 +61,15 @@ class StereoCondensedReactionGraph(StereoMolGraph, CondensedReactionGraph):
     """
 
     __slots__ = ("_atom_stereo_change", "_bond_stereo_change")
-    _atom_stereo_change: defaultdict[AtomId, ChangeDict[AtomStereo]]
-    _bond_stereo_change: defaultdict[Bond, ChangeDict[BondStereo]]
+    _atom_stereo_change: dict[AtomId, ChangeDict[AtomStereo]]
+    _bond_stereo_change: dict[Bond, ChangeDict[BondStereo]]
 
     def __init__(self, mol_graph: Optional[MolGraph] = None):
         super().__init__(mol_graph)
-        self._atom_stereo_change = defaultdict(ChangeDict[AtomStereo])
-        self._bond_stereo_change = defaultdict(ChangeDict[BondStereo])
+        # plain dicts: looking up an atom or bond without stereo change must
+        # not create an (empty) entry
+        self._atom_stereo_change = {}
+        self._bond_stereo_change = {}
 
         if mol_graph and isinstance(mol_graph, StereoCondensedReactionGraph):
             self._atom_stereo_change.update(
@@ -196,6 +198,8 @@ class StereoCondensedReactionGraph(StereoMolGraph, CondensedReactionGraph):
             del self._atom_stereo_change[atom]
         else:
             del self._atom_stereo_change[atom][stereo_change]
+            if not self._atom_stereo_change[atom]:
+                del self._atom_stereo_change[atom]
 
     def delete_bond_stereo_change(
         self, bond: Iterable[AtomId], stereo_change: Optional[Change] = None
@@ -205,6 +209,8 @@ class StereoCondensedReactionGraph(StereoMolGraph, CondensedReactionGraph):
             del self._bond_stereo_change[bond]
         else:
             del self._bond_stereo_change[bond][stereo_change]
+            if not self._bond_stereo_change[bond]:
+                del self._bond_stereo_change[bond]
 
     def remove_atom(self, atom: AtomId):
         """Removes an atom from the graph and deletes all stereo information
@@ -316,11 +322,11 @@ class StereoCondensedReactionGraph(StereoMolGraph, CondensedReactionGraph):
                 bond_stereo_change[new_bond][stereo_change] = new_stereo
 
         if copy is True:
-            relabeled_scrg._atom_stereo_change = atom_stereo_change
-            relabeled_scrg._bond_stereo_change = bond_stereo_change
+            relabeled_scrg._atom_stereo_change = dict(atom_stereo_change)
+            relabeled_scrg._bond_stereo_change = dict(bond_stereo_change)
         else:
-            self._atom_stereo_change = atom_stereo_change
-            self._bond_stereo_change = bond_stereo_change
+            self._atom_stereo_change = dict(atom_stereo_change)
+            self._bond_stereo_change = dict(bond_stereo_change)
 
         return relabeled_scrg
 
@@ -345,7 +351,9 @@ class StereoCondensedReactionGraph(StereoMolGraph, CondensedReactionGraph):
                         for atom in stereo.atoms
                         if atom is not None
                     ):
-                        new_change_table[key][change] = stereo
+                        new_change_table.setdefault(key, ChangeDict())[
+                            change
+                        ] = stereo
         return new_graph
 
     def reactant(self, keep_attributes: bool = True) -> StereoMolGraph:
